@@ -852,3 +852,422 @@ Proof.
     destruct o; [eapply L_ext; [|exact HLF]; intros x; unfold dadd, d0; lia|auto].
   - inversion E; subst. split; [exact (N.le_refl _)|exact HL].
 Qed.
+
+(** facts that survive computations which keep st_refs / st_fids / the mark *)
+Lemma L_keeps H s s' : st_refs s' = st_refs s -> st_fids s' = st_fids s -> st_next_ref s' = st_next_ref s -> L H s -> L H s'.
+Proof. intros E1 E2 E3 [L1 L2]. unfold L, refsZ, get_ref. rewrite E1, E2, E3. split; auto. Qed.
+Lemma get_ref_keeps s s' r : st_refs s' = st_refs s -> get_ref s' r = get_ref s r.
+Proof. intros E. unfold get_ref. now rewrite E. Qed.
+
+Lemma new_ref_run fr w :
+  new_ref fr w = (Ok (st_next_ref (w_st w)),
+                  mkW (mkState (st_fids (w_st w)) (st_msize (w_st w)) (aset (st_next_ref (w_st w)) fr (st_refs (w_st w))) (st_nodes (w_st w))
+                               (st_next_ref (w_st w) + 1) (st_next_node (w_st w)) (st_next_handle (w_st w))) (w_tape w) (w_log w)).
+Proof. reflexivity. Qed.
+
+Definition new_state (s : sstate) (fr : fidref) : sstate :=
+  mkState (st_fids s) (st_msize s) (aset (st_next_ref s) fr (st_refs s)) (st_nodes s) (st_next_ref s + 1) (st_next_node s) (st_next_handle s).
+Lemma get_new_same s fr : get_ref (new_state s fr) (st_next_ref s) = fr.
+Proof. unfold get_ref, new_state; cbn. now rewrite alookup_aset_same. Qed.
+Lemma get_new_other s fr x : x <> st_next_ref s -> get_ref (new_state s fr) x = get_ref s x.
+Proof. intros H. unfold get_ref, new_state; cbn. now rewrite alookup_aset_other. Qed.
+
+(** a fresh dead fidRef (refs 0) whose parent / xattrOf references we own is brought to life:
+    new_ref ; <keeps> ; incref -- stated on states: [s1] is any state with the same fidRefs as after new_ref *)
+Lemma L_fresh_alive F s fr s1 :
+  let nr := st_next_ref s in
+  fr_refs fr = 0%Z ->
+  L (dadd (dadd (dopt (fr_parent fr)) (dopt (fr_xof fr))) F) s ->
+  (forall p, fr_parent fr = Some p -> p < nr) -> (forall p, fr_xof fr = Some p -> p < nr) ->
+  st_refs s1 = st_refs (new_state s fr) -> st_fids s1 = st_fids s -> st_next_ref s1 = nr + 1 ->
+  L (dadd (d1 nr) F) (set_refs_of s1 nr 1).
+Proof.
+  intros nr Hz HL Hp Hx E1 E2 E3.
+  pose proof (L_new_ref _ s fr HL (or_introl Hz)) as HL1. cbn zeta in HL1. fold nr in HL1. fold (new_state s fr) in HL1.
+  assert (HL2 : L (dadd (dadd (dopt (fr_parent fr)) (dopt (fr_xof fr))) F) s1).
+  { apply (L_keeps _ (new_state s fr)); auto. eapply L_ext; [|exact HL1]. intros x; cbn beta. rewrite Hz. destruct (x =? nr); lia. }
+  assert (G : get_ref s1 nr = fr) by (rewrite (get_ref_keeps _ _ _ E1); apply get_new_same).
+  assert (Hz1 : refsZ s1 nr = 0%Z) by (unfold refsZ; now rewrite G).
+  assert (Hlb : links_below s1 nr).
+  { intros x Hx'. unfold links, dadd. rewrite G. rewrite E3 in Hx'.
+    assert (A : dopt (fr_parent fr) x = 0%Z) by (destruct (fr_parent fr) as [p|] eqn:Ep; [apply d1_other; specialize (Hp p eq_refl); lia|reflexivity]).
+    assert (B : dopt (fr_xof fr) x = 0%Z) by (destruct (fr_xof fr) as [p|] eqn:Ep; [apply d1_other; specialize (Hx p eq_refl); lia|reflexivity]).
+    lia. }
+  assert (Hb : nr < st_next_ref s1) by lia.
+  pose proof (L_incref_fresh _ s1 nr HL2 Hz1 Hb Hlb) as HL3.
+  eapply L_ext; [|exact HL3]. intros x. unfold dsub, dadd, links. rewrite G. unfold dadd. lia.
+Qed.
+
+Definition walk_post (x : res (list N * refid * bval)) : delta :=
+  match x with inl _ => d0 | inr (_, nr, _) => d1 nr end.
+
+Lemma nonneg_d1 r : nonneg (d1 r). Proof. intros x; apply ind_nonneg. Qed.
+Lemma nonneg_d0 : nonneg d0. Proof. intros x; unfold d0; lia. Qed.
+
+(** after a chunk that only allocated a dead fidRef and kept everything else, the frame is intact *)
+Lemma L_after_new_dead H s fr s1 :
+  L H s -> fr_refs fr = 0%Z -> st_refs s1 = st_refs (new_state s fr) -> st_fids s1 = st_fids s -> st_next_ref s1 = st_next_ref s + 1 -> L H s1.
+Proof.
+  intros HL Hz E1 E2 E3. pose proof (L_new_ref _ s fr HL (or_introl Hz)) as HL1. cbn zeta in HL1. fold (new_state s fr) in HL1.
+  apply (L_keeps _ (new_state s fr)); auto. eapply L_ext; [|exact HL1]. intros x; cbn beta. rewrite Hz. destruct (x =? st_next_ref s); lia.
+Qed.
+
+Lemma led_walk_loop K : forall names walk qids last, led K (walk_loop names walk qids last) (d1 walk) walk_post true.
+Proof.
+  induction names as [|n rest IH]; intros walk qids last; cbn [walk_loop].
+  { intros F w o w' HF HK HL E. inversion E; subst. split; [lia|exact HL]. }
+  intros F w o w' HF HK HL E.
+  unfold bind at 1 in E. cbn [the_ref gets] in E.
+  set (s := w_st w) in *. set (wfr := get_ref s walk) in *.
+  assert (Fail : forall (e : errv) w0 o0 w0', L (dadd (d1 walk) F) (w_st w0) ->
+            (dec_ref_ walk ;; ret (@inl errv (list N * refid * bval) e))%m w0 = (o0, w0') ->
+            st_next_ref (w_st w0) <= st_next_ref (w_st w0') /\
+            match o0 with Ok a => L (dadd (walk_post a) F) (w_st w0') | Panic => true = true -> L F (w_st w0') end).
+  { intros e w0 o0 w0' HL0 E0. unfold bind in E0. destruct (dec_ref_ walk w0) as [[u|] w1] eqn:Ed.
+    - destruct (led_dec_ref_ K walk F w0 _ _ HF HK HL0 Ed) as [N1 R1]. inversion E0; subst. split; [exact N1|exact R1].
+    - destruct (led_dec_ref_ K walk F w0 _ _ HF HK HL0 Ed) as [N1 R1]. inversion E0; subst. split; [exact N1|exact R1]. }
+  destruct (negb (is_dir (fr_mode wfr))); [exact (Fail _ w o w' HL E)|].
+  unfold bind at 1 in E. cbn [gets] in E.
+  destruct (is_deleted (w_st w) walk); [exact (Fail _ w o w' HL E)|].
+  unfold bind at 1 in E.
+  destruct (walk_one true (fr_file wfr) (fr_node wfr) [n] w) as [[r|] w1] eqn:E1;
+    destruct (keeps_walk_one _ _ _ _ _ _ _ E1) as (R1 & T1 & N1).
+  2:{ inversion E; subst. split; [unfold s in *; lia|]. intros _.
+      apply (L_keeps _ s); auto. eapply L_drop_own; [apply nonneg_d1|exact HF|exact HL]. }
+  assert (HL1 : L (dadd (d1 walk) F) (w_st w1)) by (apply (L_keeps _ s); auto).
+  destruct r as [e|[[q h] a]].
+  { destruct (Fail _ w1 o w' HL1 E) as [N2 R2]. split; [unfold s in *; lia|exact R2]. }
+  unfold bind at 1 in E.
+  destruct (node_for (fr_node wfr) n w1) as [[node|] w2] eqn:E2;
+    destruct (keeps_node_for _ _ _ _ _ E2) as (R2 & T2 & N2).
+  2:{ inversion E; subst. split; [unfold s in *; lia|]. intros _.
+      apply (L_keeps _ (w_st w1)); auto. eapply L_drop_own; [apply nonneg_d1|exact HF|exact HL1]. }
+  assert (HL2 : L (dadd (d1 walk) F) (w_st w2)) by (apply (L_keeps _ (w_st w1)); auto).
+  unfold bind at 1 in E. rewrite new_ref_run in E.
+  set (fr := plain_ref h (ftype (bv_mode a)) node (Some walk)) in *.
+  set (s2 := w_st w2) in *. set (nr := st_next_ref s2) in *.
+  fold (new_state s2 fr) in E.
+  unfold bind at 1 in E.
+  match type of E with context [add_child ?a ?b ?c ?W] => destruct (add_child a b c W) as [[u|] w3] eqn:E3;
+    destruct (keeps_add_child _ _ _ _ _ _ E3) as (R3 & T3 & N3) end; cbn [w_st] in R3, T3, N3.
+  2:{ inversion E; subst. split; [rewrite N3; cbn; unfold s2, s in *; lia|]. intros _.
+      eapply (L_after_new_dead F s2 fr); eauto.
+      eapply L_drop_own; [apply nonneg_d1|exact HF|exact HL2]. }
+  unfold bind at 1 in E. rewrite incref_run in E.
+  assert (Hlive : (1 <= refsZ s2 walk)%Z).
+  { eapply (L_owned_live (d1 walk) F); eauto; [apply nonneg_d1|]. rewrite d1_same. specialize (HF walk). lia. }
+  pose proof (L_live_below _ _ _ HL2 Hlive) as Hwb.
+  assert (G : get_ref (w_st w3) nr = fr) by (rewrite (get_ref_keeps _ _ _ R3); apply get_new_same).
+  assert (Hz : refsZ (w_st w3) nr = 0%Z) by (unfold refsZ; rewrite G; reflexivity).
+  rewrite Hz in E. cbn [Z.add] in E.
+  assert (HL4 : L (dadd (d1 nr) F) (set_refs_of (w_st w3) nr 1)).
+  { apply (L_fresh_alive F s2 fr (w_st w3)); [reflexivity| | | |exact R3|exact T3|rewrite N3; reflexivity].
+    - eapply L_ext; [|exact HL2]. intros x. unfold dadd, fr. cbn. unfold d0. lia.
+    - intros p Hp. unfold fr in Hp. cbn in Hp. inversion Hp; subst. exact Hwb.
+    - intros p Hp. unfold fr in Hp. cbn in Hp. discriminate. }
+  match type of E with walk_loop rest nr ?Q ?A ?W = _ => destruct (IH nr Q A F W o w' HF HK HL4 E) as [N5 R5] end.
+  split; [|exact R5]. cbn [w_st] in N5. unfold set_refs_of in N5. cbn in N5. rewrite N3 in N5. cbn in N5.
+  unfold s2, s in *. lia.
+Qed.
+
+Lemma keeps_clone_reg (del : bool) nd ref nr :
+  keeps (if del then ret tt else (nm <- name_for nd ref ;; add_child nd nr nm))%m.
+Proof. destruct del; [apply keeps_ret|]. apply keeps_bind; [apply keeps_name_for|intros nm; apply keeps_add_child]. Qed.
+
+Lemma led_do_walk K ref names ga : (1 <= K ref)%Z -> led K (do_walk ref names ga) d0 walk_post true.
+Proof.
+  intros HKr. unfold do_walk, fail.
+  destruct (negb (forallb safe_nameb names)).
+  { intros F w o w' HF HK HL E. inversion E; subst. split; [lia|exact HL]. }
+  destruct names as [|n0 rest0].
+  2:{ intros F w o w' HF HK HL E. unfold bind in E. rewrite incref_run in E.
+      assert (HL0 : L F (w_st w)) by (eapply L_ext; [|exact HL]; intros x; unfold dadd, d0; lia).
+      assert (Hlive : (1 <= refsZ (w_st w) ref)%Z).
+      { destruct HL0 as [L1 _]. specialize (L1 ref). pose proof (tcount_nonneg ref (st_fids (w_st w))). pose proof (rcount_nonneg ref (st_refs (w_st w))). specialize (HK ref). lia. }
+      pose proof (L_incref_live _ _ _ HL0 Hlive) as HL1.
+      assert (HL2 : L (dadd (d1 ref) F) (set_refs_of (w_st w) ref (refsZ (w_st w) ref + 1))) by (eapply L_ext; [|exact HL1]; intros x; unfold dadd; lia).
+      match type of E with walk_loop ?a ?b ?c ?d ?W = _ => destruct (led_walk_loop K a b c d F W o w' HF HK HL2 E) as [N1 R1] end. split; [cbn in N1; exact N1|exact R1]. }
+  intros F w o w' HF HK HL E.
+  assert (HL0 : L F (w_st w)) by (eapply L_ext; [|exact HL]; intros x; unfold dadd, d0; lia).
+  unfold bind at 1 in E. cbn [the_ref gets] in E.
+  set (fr := get_ref (w_st w) ref) in *.
+  destruct (fr_xof fr) eqn:Exof.
+  { inversion E; subst. split; [lia|exact HL]. }
+  unfold bind at 1 in E.
+  destruct (walk_one ga (fr_file fr) (fr_node fr) [] w) as [[r|] w1] eqn:E1;
+    destruct (keeps_walk_one _ _ _ _ _ _ _ E1) as (R1 & T1 & N1).
+  2:{ inversion E; subst. split; [lia|]. intros _. apply (L_keeps _ (w_st w)); auto. }
+  assert (HL1 : L F (w_st w1)) by (apply (L_keeps _ (w_st w)); auto).
+  destruct r as [e|[[q h] a]].
+  { inversion E; subst. split; [lia|]. eapply L_ext; [|exact HL1]. intros x; unfold dadd, walk_post, d0; lia. }
+  unfold bind at 1 in E. rewrite new_ref_run in E.
+  set (frn := plain_ref h (fr_mode fr) (fr_node fr) (fr_parent fr)) in *.
+  set (s1 := w_st w1) in *. set (nr := st_next_ref s1) in *. fold (new_state s1 frn) in E.
+  assert (Hreflive : (1 <= refsZ s1 ref)%Z).
+  { destruct HL1 as [L1 _]. specialize (L1 ref). pose proof (tcount_nonneg ref (st_fids s1)). pose proof (rcount_nonneg ref (st_refs s1)). specialize (HK ref). lia. }
+  pose proof (L_live_below _ _ _ HL1 Hreflive) as Hrefb.
+  assert (Gref : get_ref s1 ref = fr) by (unfold fr; apply get_ref_keeps; exact R1).
+  destruct (fr_parent fr) as [p|] eqn:Epar.
+  - (* a parent: register under its name, take a reference on it *)
+    unfold bind at 1 in E. unfold bind at 1 in E. cbn [gets] in E. unfold bind at 1 in E. cbn [the_ref gets] in E.
+    unfold bind at 1 in E.
+    match type of E with context [(if ?d then ret tt else _) ?W] =>
+      destruct ((if d then ret tt else (nm <- name_for (fr_node (get_ref (w_st W) p)) ref ;; add_child (fr_node (get_ref (w_st W) p)) nr nm)%m) W) as [[u|] w3] eqn:E3;
+      destruct (keeps_clone_reg d _ ref nr _ _ _ E3) as (R3 & T3 & N3) end; cbn [w_st] in R3, T3, N3.
+    2:{ inversion E; subst. split; [rewrite N3; cbn; unfold s1 in *; lia|]. intros _.
+        eapply (L_after_new_dead F s1 frn); eauto. }
+    assert (HL3 : L F (w_st w3)) by (eapply (L_after_new_dead F s1 frn); eauto).
+    assert (Gnr : get_ref (w_st w3) nr = frn) by (rewrite (get_ref_keeps _ _ _ R3); apply get_new_same).
+    assert (Gref3 : get_ref (w_st w3) ref = fr).
+    { rewrite (get_ref_keeps _ _ _ R3). transitivity (get_ref s1 ref); [apply get_new_other; fold nr; lia|exact Gref]. }
+    assert (Hplive : (1 <= refsZ (w_st w3) p)%Z).
+    { destruct HL3 as [L1 _]. specialize (L1 p). pose proof (rcount_ge_claims (w_st w3) ref p) as Hc.
+      rewrite claims_live in Hc by (unfold refsZ; rewrite Gref3; fold (refsZ s1 ref); unfold refsZ in Hreflive; rewrite Gref in Hreflive; lia).
+      unfold links, dadd in Hc. rewrite Gref3, Epar, Exof in Hc. cbn [dopt] in Hc. rewrite d1_same in Hc. unfold d0 in Hc.
+      pose proof (tcount_nonneg p (st_fids (w_st w3))). specialize (HF p). lia. }
+    pose proof (L_live_below _ _ _ HL3 Hplive) as Hpb. rewrite N3 in Hpb. cbn in Hpb. fold nr in Hpb.
+    unfold bind at 1 in E. rewrite incref_run in E. cbn [w_st w_tape w_log] in E.
+    pose proof (L_incref_live _ _ _ HL3 Hplive) as HL4.
+    set (s4 := set_refs_of (w_st w3) p (refsZ (w_st w3) p + 1)) in *.
+    rewrite incref_run in E. cbn [w_st w_tape w_log] in E.
+    assert (Hpnr : p <> nr).
+    { assert (p < nr); [|lia]. destruct (N.lt_ge_cases p nr) as [|Hge]; [assumption|].
+      destruct HL1 as [L1 L2]. destruct (L2 p Hge) as [Ez Er]. specialize (L1 p). pose proof (rcount_ge_claims s1 ref p) as Hc.
+      rewrite claims_live in Hc by lia. unfold links, dadd in Hc. rewrite Gref, Epar, Exof in Hc. cbn [dopt] in Hc. rewrite d1_same in Hc. unfold d0 in Hc.
+      pose proof (tcount_nonneg p (st_fids s1)). lia. }
+    assert (Gnr4 : get_ref s4 nr = frn) by (unfold s4, set_refs_of; rewrite get_put_ref_other by congruence; exact Gnr).
+    assert (Hz4 : refsZ s4 nr = 0%Z) by (unfold refsZ; rewrite Gnr4; reflexivity).
+    rewrite Hz4 in E. cbn [Z.add] in E.
+    assert (Hn4 : st_next_ref s4 = nr + 1) by (unfold s4, set_refs_of; cbn; rewrite N3; reflexivity).
+    assert (Hlb : links_below s4 nr).
+    { intros x Hx. unfold links, dadd. rewrite Gnr4. unfold frn. cbn. rewrite d1_other by lia. reflexivity. }
+    assert (Hb4 : nr < st_next_ref s4) by lia.
+    pose proof (L_incref_fresh _ s4 nr HL4 Hz4 Hb4 Hlb) as HL5.
+    cbv beta iota in E. cbn [ret] in E. inversion E; subst; cbn [w_st].
+    split; [unfold set_refs_of; cbn; rewrite N3; cbn; unfold s1 in *; lia|].
+    eapply L_ext; [|exact HL5]. intros x. unfold links, walk_post. rewrite Gnr4. unfold frn. cbn. unfold dsub, dadd, d0. lia.
+  - (* a root: nothing to register *)
+    unfold bind at 1 in E. cbn [ret] in E. unfold bind at 1 in E. rewrite incref_run in E. cbn [w_st w_tape w_log] in E.
+    change (mkState (st_fids s1) (st_msize s1) (aset nr frn (st_refs s1)) (st_nodes s1) (nr + 1) (st_next_node s1) (st_next_handle s1)) with (new_state s1 frn) in E.
+    assert (Gnr : get_ref (new_state s1 frn) nr = frn) by apply get_new_same.
+    assert (Hz : refsZ (new_state s1 frn) nr = 0%Z) by (unfold refsZ; rewrite Gnr; reflexivity).
+    rewrite Hz in E. cbn [Z.add] in E.
+    assert (HL4 : L (dadd (d1 nr) F) (set_refs_of (new_state s1 frn) nr 1)).
+    { apply (L_fresh_alive F s1 frn (new_state s1 frn)); [reflexivity| | | |reflexivity|reflexivity|reflexivity].
+      - eapply L_ext; [|exact HL1]. intros x. unfold dadd, frn. cbn. unfold d0. lia.
+      - intros p Hp. unfold frn in Hp. cbn in Hp. discriminate.
+      - intros p Hp. unfold frn in Hp. cbn in Hp. discriminate. }
+    cbn [ret] in E. inversion E; subst; cbn [w_st].
+    split; [unfold set_refs_of; cbn; unfold s1 in *; lia|]. exact HL4.
+Qed.
+
+(** ref.parent = target, whatever the xattrOf *)
+Lemma L_set_parent' H s r target :
+  L H s -> (1 <= refsZ s r)%Z -> target < st_next_ref s ->
+  (forall x, st_next_ref s <= x -> dopt (fr_parent (get_ref s r)) x = 0%Z) ->
+  L (dsub (dadd H (dopt (fr_parent (get_ref s r)))) (d1 target)) (put_ref r (set_parent (get_ref s r) (Some target)) s).
+Proof.
+  intros [L1 L2] Hlive Ht Hlb. split.
+  - intros x. rewrite refsZ_put_ref, rcount_put_ref. cbn [st_fids put_ref].
+    rewrite claims_live by lia.
+    assert (C : claims (set_parent (get_ref s r) (Some target)) x = (d1 target x + dopt (fr_xof (get_ref s r)) x)%Z).
+    { unfold claims, live; cbn [fr_refs set_parent fr_parent fr_xof]. fold (refsZ s r). assert (E : (0 <? refsZ s r)%Z = true) by (apply Z.ltb_lt; lia).
+      rewrite E. unfold opt_is, d1, dopt. destruct (fr_xof (get_ref s r)); unfold d1, d0; cbn; lia. }
+    rewrite C. unfold links, dadd, dsub. specialize (L1 x).
+    destruct (N.eqb_spec x r) as [->|Hne]; cbn [fr_refs set_parent]; fold (refsZ s r); lia.
+  - intros x Hge. cbn in Hge. rewrite refsZ_put_ref. destruct (L2 x Hge) as [E1 E2].
+    assert (x <> r) by (intros ->; lia). apply N.eqb_neq in H0. rewrite H0. split; [|assumption].
+    unfold dsub, dadd. rewrite E1, (Hlb x Hge), d1_other by lia. reflexivity.
+Qed.
+
+Lemma live_parent_below H s r : L H s -> nonneg H -> (1 <= refsZ s r)%Z ->
+  forall x, st_next_ref s <= x -> links s r x = 0%Z.
+Proof.
+  intros [L1 L2] Hn Hlive x Hge. destruct (L2 x Hge) as [E1 E2]. specialize (L1 x).
+  pose proof (rcount_ge_claims s r x) as Hc. rewrite claims_live in Hc by lia.
+  pose proof (tcount_nonneg x (st_fids s)). pose proof (links_nonneg s r x). lia.
+Qed.
+
+(** DecRef that does not reach zero: exactly one count less *)
+Lemma dec_ref__nocascade r w :
+  refsZ (w_st w) r <> 1%Z ->
+  dec_ref_ r w = (Ok tt, mkW (set_refs_of (w_st w) r (refsZ (w_st w) r - 1)) (w_tape w) (w_log w)).
+Proof.
+  intros Hn. unfold dec_ref_, bind. change (dec_ref r w) with (decref (ref_fuel (w_st w)) r w). unfold ref_fuel.
+  cbn [decref]. unfold bind at 1. cbn [the_ref gets]. unfold bind at 1. cbn [modify].
+  change (fr_refs (get_ref (w_st w) r)) with (refsZ (w_st w) r).
+  destruct (refsZ (w_st w) r - 1 =? 0)%Z eqn:E; [apply Z.eqb_eq in E; lia|]. reflexivity.
+Qed.
+
+(** the callback renameChildTo runs on every moved fidRef: its parent reference moves to [target].
+    Between DecRef of the old parent and the assignment the ledger is in debt: a panic there is unsafe. *)
+Definition rename_fn (target : refid) (tnode : nodeid) (tfile : handle) (new : string) (r : refid) : M unit :=
+  (fr <- the_ref r ;;
+   match fr_parent fr with
+   | None => panic
+   | Some p => dec_ref_ p
+   end ;;
+   fr' <- the_ref r ;;
+   modify (put_ref r (set_parent fr' (Some target))) ;;
+   incref target ;;
+   add_child tnode r new ;;
+   backend (mkCall MRenamed (fr_file fr) [new] (Some tfile) [] []) ;;
+   ret tt)%m.
+
+Lemma next_ref_mono_dec_ref_ r w o w' : dec_ref_ r w = (o, w') -> st_next_ref (w_st w) <= st_next_ref (w_st w').
+Proof.
+  intros E. destruct (N.lt_ge_cases r (st_next_ref (w_st w))) as [Hb|Hge].
+  - (* any ledger will do for the mark: use the trivial frame of the core lemma through only_refs *)
+    assert (G : forall fuel r w o w', decref fuel r w = (o, w') -> st_next_ref (w_st w) <= st_next_ref (w_st w')).
+    { clear. induction fuel as [|k IH]; intros r w o w' E; [inversion E; lia|].
+      cbn [decref] in E. unfold bind at 1 in E. cbn [the_ref gets] in E. unfold bind at 1 in E. cbn [modify] in E.
+      destruct (_ =? 0)%Z; [|inversion E; subst; cbn; lia].
+      unfold bind at 1 in E.
+      match type of E with (let (o0, w'0) := ?X in _) = _ => destruct X as [[e1|] w2] eqn:E1 end.
+      - assert (N1 : st_next_ref (w_st w) <= st_next_ref (w_st w2)).
+        { destruct (fr_xof (get_ref (w_st w) r)); [apply IH in E1; cbn in E1; exact E1|].
+          unfold bind, backend in E1. cbn in E1. destruct (w_tape w) as [|a t]; [|destruct a]; cbn in E1; inversion E1; subst; cbn; lia. }
+        unfold bind at 1 in E.
+        destruct (fr_parent (get_ref (w_st w) r)).
+        + unfold bind at 1 in E. cbn [the_ref gets] in E. unfold bind at 1 in E. cbn [remove_child modify] in E.
+          match type of E with (let (o0, w'0) := ?X in _) = _ => destruct X as [[e2|] w3] eqn:E2 end;
+            apply IH in E2; cbn in E2; inversion E; subst; lia.
+        + cbn in E. inversion E; subst. exact N1.
+      - inversion E; subst.
+        destruct (fr_xof (get_ref (w_st w) r)); [apply IH in E1; cbn in E1; exact E1|].
+        unfold bind, backend in E1. cbn in E1. destruct (w_tape w) as [|a t]; [|destruct a]; cbn in E1; inversion E1; subst; cbn; lia. }
+    unfold dec_ref_, bind in E. change (dec_ref r w) with (decref (ref_fuel (w_st w)) r w) in E.
+    destruct (decref _ r w) as [[e|] w3] eqn:E3; inversion E; subst; eapply G; eauto.
+  - assert (G : forall fuel r w o w', decref fuel r w = (o, w') -> st_next_ref (w_st w) <= st_next_ref (w_st w')).
+    { clear. induction fuel as [|k IH]; intros r w o w' E; [inversion E; lia|].
+      cbn [decref] in E. unfold bind at 1 in E. cbn [the_ref gets] in E. unfold bind at 1 in E. cbn [modify] in E.
+      destruct (_ =? 0)%Z; [|inversion E; subst; cbn; lia].
+      unfold bind at 1 in E.
+      match type of E with (let (o0, w'0) := ?X in _) = _ => destruct X as [[e1|] w2] eqn:E1 end.
+      - assert (N1 : st_next_ref (w_st w) <= st_next_ref (w_st w2)).
+        { destruct (fr_xof (get_ref (w_st w) r)); [apply IH in E1; cbn in E1; exact E1|].
+          unfold bind, backend in E1. cbn in E1. destruct (w_tape w) as [|a t]; [|destruct a]; cbn in E1; inversion E1; subst; cbn; lia. }
+        unfold bind at 1 in E.
+        destruct (fr_parent (get_ref (w_st w) r)).
+        + unfold bind at 1 in E. cbn [the_ref gets] in E. unfold bind at 1 in E. cbn [remove_child modify] in E.
+          match type of E with (let (o0, w'0) := ?X in _) = _ => destruct X as [[e2|] w3] eqn:E2 end;
+            apply IH in E2; cbn in E2; inversion E; subst; lia.
+        + cbn in E. inversion E; subst. exact N1.
+      - inversion E; subst.
+        destruct (fr_xof (get_ref (w_st w) r)); [apply IH in E1; cbn in E1; exact E1|].
+        unfold bind, backend in E1. cbn in E1. destruct (w_tape w) as [|a t]; [|destruct a]; cbn in E1; inversion E1; subst; cbn; lia. }
+    unfold dec_ref_, bind in E. change (dec_ref r w) with (decref (ref_fuel (w_st w)) r w) in E.
+    destruct (decref _ r w) as [[e|] w3] eqn:E3; inversion E; subst; eapply G; eauto.
+Qed.
+
+Lemma led_rename_fn K target tnode tfile new r :
+  (1 <= K r)%Z -> (1 <= K target)%Z -> led K (rename_fn target tnode tfile new r) d0 (fun _ => d0) false.
+Proof.
+  intros HKr HKt F w o w' HF HK HL E.
+  assert (HL0 : L F (w_st w)) by (eapply L_ext; [|exact HL]; intros x; unfold dadd, d0; lia).
+  unfold rename_fn in E. unfold bind at 1 in E. cbn [the_ref gets] in E.
+  set (s := w_st w) in *. set (fr := get_ref s r) in *.
+  assert (Hrlive : (1 <= refsZ s r)%Z).
+  { destruct HL0 as [L1 _]. specialize (L1 r). pose proof (tcount_nonneg r (st_fids s)). pose proof (rcount_nonneg r (st_refs s)). specialize (HK r). lia. }
+  assert (Htlive : (1 <= refsZ s target)%Z).
+  { destruct HL0 as [L1 _]. specialize (L1 target). pose proof (tcount_nonneg target (st_fids s)). pose proof (rcount_nonneg target (st_refs s)). specialize (HK target). lia. }
+  pose proof (L_live_below _ _ _ HL0 Htlive) as Htb.
+  unfold bind at 1 in E.
+  destruct (fr_parent fr) as [p|] eqn:Ep; [|inversion E; subst; split; [exact (N.le_refl _)|discriminate]].
+  assert (Hlinks : forall x, st_next_ref s <= x -> links s r x = 0%Z) by (apply (live_parent_below F); auto).
+  assert (Hpb : p < st_next_ref s).
+  { destruct (N.lt_ge_cases p (st_next_ref s)) as [|Hge]; [assumption|]. specialize (Hlinks p Hge). unfold links, dadd in Hlinks.
+    change (get_ref s r) with fr in Hlinks. rewrite Ep in Hlinks. cbn [dopt] in Hlinks. rewrite d1_same in Hlinks.
+    pose proof (dopt_nonneg (fr_xof fr) p). lia. }
+  destruct (dec_ref_ p w) as [[u|] w1] eqn:Ed.
+  2:{ inversion E; subst. split; [eapply next_ref_mono_dec_ref_; eauto|discriminate]. }
+  destruct (dec_ref__core p _ w (Ok u) w1 HL0 Hpb Ed) as [HL1 Ho1].
+  destruct Ho1 as (Og & Of & On & Om). fold s in Og, Of, On.
+  set (s1 := w_st w1) in *.
+  unfold bind at 1 in E. cbn [the_ref gets] in E. fold s1 in E.
+  assert (Gr1 : get_ref s1 r = set_refs fr (refsZ s1 r)) by (rewrite Og; reflexivity).
+  assert (Hrlive1 : (1 <= refsZ s1 r)%Z).
+  { destruct (N.eqb_spec p r) as [Epr|Hne].
+    - (* its own parent: two references at least, the drop does not reach zero *)
+      subst p.
+      assert (H2 : (2 <= refsZ s r)%Z).
+      { destruct HL0 as [L1 _]. specialize (L1 r). pose proof (rcount_ge_claims s r r) as Hc. rewrite claims_live in Hc by lia.
+        unfold links, dadd in Hc. change (get_ref s r) with fr in Hc. rewrite Ep in Hc. cbn [dopt] in Hc. rewrite d1_same in Hc.
+        pose proof (dopt_nonneg (fr_xof fr) r). pose proof (tcount_nonneg r (st_fids s)). specialize (HK r). lia. }
+      rewrite dec_ref__nocascade in Ed by (fold s; lia). inversion Ed; subst. unfold s1; cbn [w_st]. fold s.
+      unfold set_refs_of. rewrite refsZ_put_ref, N.eqb_refl. cbn. fold (refsZ s r). lia.
+    - destruct HL1 as [L1 _]. specialize (L1 r). fold s1 in L1. unfold dsub in L1. rewrite d1_other in L1 by assumption.
+      pose proof (tcount_nonneg r (st_fids s1)). pose proof (rcount_nonneg r (st_refs s1)). specialize (HK r). lia. }
+  assert (Hpar1 : fr_parent (get_ref s1 r) = Some p) by (rewrite Gr1; exact Ep).
+  assert (Htlive1 : (1 <= refsZ s1 target)%Z).
+  { destruct HL1 as [L1 _]. specialize (L1 target). fold s1 in L1. unfold dsub in L1.
+    pose proof (tcount_nonneg target (st_fids s1)). specialize (HK target).
+    destruct (N.eqb_spec p target) as [->|Hne].
+    - pose proof (rcount_ge_claims s1 r target) as Hc. rewrite claims_live in Hc by lia.
+      unfold links, dadd in Hc. rewrite Hpar1 in Hc. cbn [dopt] in Hc. rewrite d1_same in Hc, L1.
+      pose proof (dopt_nonneg (fr_xof (get_ref s1 r)) target). lia.
+    - rewrite d1_other in L1 by assumption. pose proof (rcount_nonneg target (st_refs s1)). lia. }
+  unfold bind at 1 in E. cbn [modify w_st w_tape w_log] in E. fold s1 in E.
+  assert (Hlb1 : forall x, st_next_ref s1 <= x -> dopt (fr_parent (get_ref s1 r)) x = 0%Z).
+  { intros x Hx. rewrite Hpar1. cbn [dopt]. apply d1_other. rewrite On in Hx. lia. }
+  assert (Htb1 : target < st_next_ref s1) by (rewrite On; exact Htb).
+  pose proof (L_set_parent' _ s1 r target HL1 Hrlive1 Htb1 Hlb1) as HL2. rewrite Hpar1 in HL2. cbn [dopt] in HL2.
+  set (s2 := put_ref r (set_parent (get_ref s1 r) (Some target)) s1) in *.
+  unfold bind at 1 in E. rewrite incref_run in E. cbn [w_st w_tape w_log] in E.
+  assert (Htlive2 : (1 <= refsZ s2 target)%Z).
+  { unfold s2. rewrite refsZ_put_ref. destruct (target =? r) eqn:Et; [apply N.eqb_eq in Et; subst; cbn; fold (refsZ s1 r); exact Hrlive1|exact Htlive1]. }
+  pose proof (L_incref_live _ _ _ HL2 Htlive2) as HL3.
+  set (s3 := set_refs_of s2 target (refsZ s2 target + 1)) in *.
+  assert (HL3' : L F s3) by (eapply L_ext; [|exact HL3]; intros x; unfold dsub, dadd; lia).
+  assert (N3 : st_next_ref s3 = st_next_ref s) by (unfold s3, s2, set_refs_of; cbn; exact On).
+  unfold bind at 1 in E.
+  match type of E with context [add_child ?a ?b ?c ?W] => destruct (add_child a b c W) as [[u1|] w4] eqn:E4;
+    destruct (keeps_add_child _ _ _ _ _ _ E4) as (R4 & T4 & N4) end; cbn [w_st] in R4, T4, N4.
+  2:{ inversion E; subst. split; [rewrite N4, N3; unfold s; lia|discriminate]. }
+  unfold bind at 1 in E.
+  match type of E with context [backend ?c ?W] => destruct (backend c W) as [[u2|] w5] eqn:E5;
+    destruct (keeps_backend _ _ _ _ E5) as (R5 & T5 & N5) end.
+  2:{ inversion E; subst. split; [rewrite N5, N4, N3; unfold s; lia|discriminate]. }
+  cbn [ret] in E. inversion E; subst. split; [rewrite N5, N4, N3; unfold s; lia|].
+  apply (L_keeps _ (w_st w4)); [exact R5|exact T5|exact N5|]. apply (L_keeps _ s3); [exact R4|exact T4|exact N4|].
+  eapply L_ext; [|exact HL3']. intros x; unfold dadd, d0; lia.
+Qed.
+
+Lemma dle_refl K : dle K K. Proof. intros x; lia. Qed.
+Lemma dle_add K r : dle K (dadd K (d1 r)). Proof. intros x; unfold dadd; pose proof (ind_nonneg (r =? x)); unfold d1; lia. Qed.
+Lemma dle_trans a b c : dle a b -> dle b c -> dle a c. Proof. intros H1 H2 x; specialize (H1 x); specialize (H2 x); lia. Qed.
+
+Lemma nonneg_add a b : nonneg a -> nonneg b -> nonneg (dadd a b).
+Proof. intros Ha Hb x; unfold dadd; specialize (Ha x); specialize (Hb x); lia. Qed.
+
+Lemma led_rwn_loop {A} n (f : refid -> M unit) (k : M A) postk :
+  (forall a, nonneg (postk a)) ->
+  forall rs K, nonneg K ->
+  (forall K' r, nonneg K' -> dle K K' -> (1 <= K' r)%Z -> led K' (f r) d0 (fun _ => d0) false) ->
+  (forall K', nonneg K' -> dle K K' -> led K' k d0 postk false) ->
+  led K (rwn_loop n (Some f) rs k) d0 postk false.
+Proof.
+  intros Hpk rs. induction rs as [|r rest IH]; intros K HKn Hf Hk; cbn [rwn_loop]; [apply Hk; [exact HKn|apply dle_refl]|].
+  intros F w o w' HF HK HL E.
+  unfold bind at 1 in E.
+  destruct (remove_child n r w) as [[u|] w1] eqn:E1; destruct (keeps_remove_child _ _ _ _ _ E1) as (R1 & T1 & N1).
+  2:{ inversion E; subst. split; [lia|discriminate]. }
+  assert (HL1 : L (dadd d0 F) (w_st w1)) by (apply (L_keeps _ (w_st w)); auto).
+  unfold bind at 1 in E. cbn [the_ref gets] in E.
+  destruct (0 <? fr_refs (get_ref (w_st w1) r))%Z eqn:Elive.
+  - apply Z.ltb_lt in Elive. unfold bind at 1 in E. rewrite incref_run in E.
+    assert (HL2 : L (dadd (dadd (d1 r) d0) F) (set_refs_of (w_st w1) r (refsZ (w_st w1) r + 1))).
+    { eapply L_ext; [|apply (L_incref_live _ _ r HL1); unfold refsZ; lia]. intros x; unfold dadd, d0; lia. }
+    assert (HKn' : nonneg (dadd K (d1 r))) by (apply nonneg_add; [exact HKn|apply nonneg_d1]).
+    assert (Hbody : led (dadd K (d1 r)) (f r ;; rwn_loop n (Some f) rest k)%m d0 postk false).
+    { change false with (false && false). eapply led_bind0.
+      - apply Hf; [exact HKn'|apply dle_add|unfold dadd; rewrite d1_same; specialize (HKn r); lia].
+      - intros u0. cbn beta. apply IH; [exact HKn'| |].
+        + intros K' r' Hn' Hle Hr'. apply Hf; auto. eapply dle_trans; [apply dle_add|exact Hle].
+        + intros K' Hn' Hle. apply Hk; auto. eapply dle_trans; [apply dle_add|exact Hle]. }
+    pose proof (led_with_defer K r _ d0 postk false Hbody Hpk) as Hwd.
+    match type of E with with_defer _ _ ?W = _ => destruct (Hwd F W o w' HF HK HL2 E) as [N2 R2] end.
+    split; [cbn in N2; unfold set_refs_of in N2; cbn in N2; lia|exact R2].
+  - assert (Hrest : led K (rwn_loop n (Some f) rest k) d0 postk false) by (apply IH; auto).
+    destruct (Hrest F w1 o w' HF HK HL1 E) as [N2 R2]. split; [lia|exact R2].
+Qed.
